@@ -5,6 +5,7 @@
 //! merkle_root}`.
 
 use crate::c09_mk::{self as mk, Bytes, PProof, h2, leaf_pos, node, root_expr};
+use crate::c09_util::{Label, violation};
 use mc_core::{Report, catch};
 use mithril_common::entities::{BlockRange, IntoMKTreeNode, MkSetProof};
 use mithril_merkle_tree::{MKMap, MKMapNode, MKMapProof, MKProof, MKTree, MKTreeNode, MKTreeStoreInMemory};
@@ -328,7 +329,8 @@ fn check_level(p: &PMapProof, m: &RefNode, inner: &[Bytes], path: &str, out: &mu
     }
 }
 
-pub fn eval_proof(rep: &mut Report, w: &World, p: &PMapProof, label: &str, count_distinct: bool) -> Verdict {
+pub fn eval_proof<'a>(rep: &mut Report, w: &World, p: &PMapProof, label: impl Into<Label<'a>>, count_distinct: bool) -> Verdict {
+    let label: Label = label.into();
     rep.eval();
     let Some(real) = p.to_real() else {
         rep.outcome("mkmap:undecodable");
@@ -358,7 +360,7 @@ pub fn eval_proof(rep: &mut Report, w: &World, p: &PMapProof, label: &str, count
     if count_distinct || verdict == Verdict::Accepted {
         rep.nontrivial(&("map", &w.reference, p));
     }
-    let replay = || json!({"part": "mkmap", "structure": w.reference.to_json(), "proof": p.to_json(), "made_by": label});
+    let replay = || json!({"part": "mkmap", "structure": w.reference.to_json(), "proof": p.to_json(), "made_by": label.to_string()});
     let root_hex = hex::encode(&w.root);
     let mut stated = vec![];
     p.stated_items(&mut stated);
@@ -405,15 +407,16 @@ pub fn eval_proof(rep: &mut Report, w: &World, p: &PMapProof, label: &str, count
             }
             _ => "",
         };
-        rep.violation(
-            &f.key,
-            format!(
-                "MKMapProof verifies against the committed root although it states something false: {}{set_too}; structure {}; proof made by: {label}",
-                f.what,
-                w.reference.describe()
-            ),
-            replay(),
-        );
+        violation(rep, &f.key, || {
+            (
+                format!(
+                    "MKMapProof verifies against the committed root although it states something false: {}{set_too}; structure {}; proof made by: {label}",
+                    f.what,
+                    w.reference.describe()
+                ),
+                replay(),
+            )
+        });
     }
     // (2) what the accessors tell a caller
     let mut probes = w.committed.clone();
@@ -462,8 +465,8 @@ pub fn eval_proof(rep: &mut Report, w: &World, p: &PMapProof, label: &str, count
             );
         }
     }
-    if !any_keyed && label != "honest" && rep.extras.get("mkmap_sample_accepted_mutant").is_none() {
-        rep.extra("mkmap_sample_accepted_mutant", json!({"made_by": label, "structure": w.reference.describe(), "proof": p.to_json()}));
+    if !any_keyed && !label.is_honest() && rep.extras.get("mkmap_sample_accepted_mutant").is_none() {
+        rep.extra("mkmap_sample_accepted_mutant", json!({"made_by": label.to_string(), "structure": w.reference.describe(), "proof": p.to_json()}));
     }
     verdict
 }
@@ -741,7 +744,7 @@ pub fn mutations(c: &PMapProof, m: &Material) -> Vec<(String, PMapProof)> {
     out
 }
 
-pub fn mutation_sweep(reference: &RefNode, mask: u32, depth: usize) -> Report {
+pub fn mutation_sweep(reference: &RefNode, mask: u32, depth: usize, chunk: usize, chunks: usize) -> Report {
     let mut rep = Report::new("exploration", "");
     let Ok(w) = World::new(reference.clone()) else {
         rep.machinery_error(format!("cannot build MKMap {}", reference.describe()));
@@ -754,14 +757,17 @@ pub fn mutation_sweep(reference: &RefNode, mask: u32, depth: usize) -> Report {
     let Ok(real) = w.honest(&sel) else { return rep };
     let honest = PMapProof::from_real(&real);
     let singles = mutations(&honest, &m);
-    rep.add_extra("mkmap_single_mutants", singles.len() as u64);
-    for (label, p) in &singles {
+    for (i, (label, p)) in singles.iter().enumerate() {
+        if i % chunks != chunk {
+            continue;
+        }
+        rep.add_extra("mkmap_single_mutants", 1);
         eval_proof(&mut rep, &w, p, label, true);
         if depth >= 2 {
             let pairs = mutations(p, &m);
             rep.add_extra("mkmap_paired_mutants", pairs.len() as u64);
             for (label2, p2) in &pairs {
-                eval_proof(&mut rep, &w, p2, &format!("{label} ; {label2}"), false);
+                eval_proof(&mut rep, &w, p2, Label(label, label2), false);
             }
         }
     }
